@@ -559,242 +559,17 @@ func oracle(lg *runLog) oracleOut {
 // ---------------------------------------------------------------------------------------
 // rendering for the model
 
-type labeller struct {
-	lg      *runLog
-	ids     map[string]uint64       // gamma bytes -> id
-	byEon   map[uint64]map[int][]cm // eon -> dealer party -> its commitments
-	verMemo map[string]bool
-}
-
-type cm struct {
-	id uint64
-	g  *shcrypto.Gammas
-}
-
-func gkey(g *shcrypto.Gammas) string {
-	b, _ := g.GobEncode()
-	return fmt.Sprintf("%d:", len(*g)) + string(b)
-}
-
-func (lb *labeller) commit(eon uint64, dealer int, g *shcrypto.Gammas) (id uint64, n int) {
-	k := gkey(g)
-	id, ok := lb.ids[k]
-	if !ok {
-		id = uint64(len(lb.ids) + 1)
-		lb.ids[k] = id
-	}
-	if lb.byEon[eon] == nil {
-		lb.byEon[eon] = map[int][]cm{}
-	}
-	have := false
-	for _, c := range lb.byEon[eon][dealer] {
-		if c.id == id {
-			have = true
-		}
-	}
-	if !have {
-		lb.byEon[eon][dealer] = append(lb.byEon[eon][dealer], cm{id, g})
-	}
-	return id, len(*g)
-}
-
-func coqC(id uint64, n int) string { return vh.CApp("mkC", vh.CN(id), vh.CN(uint64(n))) }
-
-// eval label: ValidEval and the dealer's commitments it verifies against under index idx
-func (lb *labeller) eval(eon uint64, dealer int, idx int, v *big.Int) string {
-	var ok []uint64
-	if idx >= 0 {
-		for _, c := range lb.byEon[eon][dealer] {
-			mk := fmt.Sprintf("%d/%d/%s/%d", idx, c.id, v.String(), lb.lg.plan.P.T)
-			r, seen := lb.verMemo[mk]
-			if !seen {
-				r = shcrypto.VerifyPolyEval(idx, v, c.g, uint64(lb.lg.plan.P.T))
-				lb.verMemo[mk] = r
-			}
-			if r {
-				ok = append(ok, c.id)
-			}
-		}
-	}
-	sort.Slice(ok, func(a, b int) bool { return ok[a] < ok[b] })
-	return vh.CApp("mkE", vh.CBool(shcrypto.ValidEval(v)), vh.CNList(ok))
-}
-
-func addrsCoq(as []common.Address) string {
-	xs := make([]string, len(as))
-	for i, a := range as {
-		xs[i] = vh.CBytes(a.Bytes())
-	}
-	return vh.CList(xs)
-}
-
-func (lb *labeller) collectCommits() {
-	rig := lb.lg.rig
-	for h := int64(1); h <= rig.Chain.Height(); h++ {
-		for _, ev := range dkgrig.EventsOf(rig.Chain.BlockAt(h)) {
-			if pc, ok := ev.(*shutterevents.PolyCommitment); ok {
-				lb.commit(pc.Eon, rig.IndexOf(pc.Sender), pc.Gammas)
-			}
-		}
-	}
-	for i := range rig.Parties {
-		for _, s := range rig.SentBy(rig.Parties[i].Name) {
-			if s.Msg != nil && s.Msg.GetPolyCommitment() != nil {
-				if g, ok := dkgrig.GammasOf(s.Msg.GetPolyCommitment()); ok {
-					lb.commit(s.Msg.GetPolyCommitment().Eon, i, g)
-				}
-			}
-		}
-	}
-}
-
-func (lb *labeller) eventCoq(ev shutterevents.IEvent) (string, bool) {
-	rig := lb.lg.rig
-	plan := lb.lg.plan
-	switch e := ev.(type) {
-	case *shutterevents.CheckIn:
-		return vh.CApp("DCheckIn", vh.CBytes(e.Sender.Bytes())), true
-	case *shutterevents.BatchConfig:
-		return vh.CApp("DBatchConfig", vh.CN(e.KeyperConfigIndex), vh.CN(e.ActivationBlockNumber), vh.CN(e.Threshold), addrsCoq(e.Keypers), vh.CBool(e.Started)), true
-	case *shutterevents.BatchConfigStarted:
-		return vh.CApp("DBatchConfigStarted", vh.CN(e.KeyperConfigIndex)), true
-	case *shutterevents.EonStarted:
-		return vh.CApp("DEonStarted", vh.CN(e.Eon), vh.CN(e.ActivationBlockNumber), vh.CN(e.KeyperConfigIndex)), true
-	case *shutterevents.PolyCommitment:
-		id, n := lb.commit(e.Eon, rig.IndexOf(e.Sender), e.Gammas)
-		return vh.CApp("DCommit", vh.CBytes(e.Sender.Bytes()), vh.CN(e.Eon), coqC(id, n)), true
-	case *shutterevents.PolyEval:
-		vals := make([]string, len(e.EncryptedEvals))
-		dealer := rig.IndexOf(e.Sender)
-		for k := range e.EncryptedEvals {
-			vals[k] = "None"
-			if k >= len(e.Receivers) {
-				continue
-			}
-			p := rig.IndexOf(e.Receivers[k])
-			if p < 0 {
-				continue
-			}
-			if v, ok := rig.DecryptEval(p, e.EncryptedEvals[k]); ok {
-				vals[k] = vh.CSome(lb.eval(e.Eon, dealer, plan.memberIdx(p), v))
-			}
-		}
-		return vh.CApp("DEval", vh.CBytes(e.Sender.Bytes()), vh.CN(e.Eon), addrsCoq(e.Receivers), vh.CList(vals)), true
-	case *shutterevents.Accusation:
-		return vh.CApp("DAccusation", vh.CBytes(e.Sender.Bytes()), vh.CN(e.Eon), addrsCoq(e.Accused)), true
-	case *shutterevents.Apology:
-		vals := make([]string, len(e.PolyEval))
-		dealer := rig.IndexOf(e.Sender)
-		for k := range e.PolyEval {
-			idx := -1
-			if k < len(e.Accusers) {
-				idx = plan.memberIdx(rig.IndexOf(e.Accusers[k]))
-			}
-			vals[k] = lb.eval(e.Eon, dealer, idx, e.PolyEval[k])
-		}
-		return vh.CApp("DApology", vh.CBytes(e.Sender.Bytes()), vh.CN(e.Eon), addrsCoq(e.Accusers), vh.CList(vals)), true
-	}
-	return "", false
-}
-
-func (lb *labeller) snapCoq(party int, eon uint64, p *puredkg.PureDKG) string {
-	plan := lb.lg.plan
-	me := plan.memberIdx(party)
-	dealerParty := func(idx uint64) int {
-		if int(idx) < len(plan.Members) {
-			return plan.Members[idx]
-		}
-		return -1
-	}
-	cs := make([]string, len(p.Commitments))
-	for k, c := range p.Commitments {
-		cs[k] = "None"
-		if c != nil {
-			id, n := lb.commit(eon, dealerParty(uint64(k)), c)
-			cs[k] = vh.CSome(coqC(id, n))
-		}
-	}
-	es := make([]string, len(p.Evals))
-	for k, v := range p.Evals {
-		es[k] = "None"
-		if v != nil {
-			es[k] = vh.CSome(lb.eval(eon, dealerParty(uint64(k)), me, v))
-		}
-	}
-	var accs []string
-	for k := range p.Accusations {
-		accs = append(accs, vh.CPair(vh.CNat(int(k.Accuser)), vh.CNat(int(k.Accused))))
-	}
-	sort.Strings(accs)
-	var apos []string
-	for k, v := range p.Apologies {
-		apos = append(apos, vh.CPair(vh.CPair(vh.CNat(int(k.Accuser)), vh.CNat(int(k.Accused))), lb.eval(eon, dealerParty(k.Accused), int(k.Accuser), v)))
-	}
-	sort.Strings(apos)
-	return vh.CApp("mkSnap", vh.CNat(int(p.Phase)), vh.CList(cs), vh.CList(es), vh.CList(accs), vh.CList(apos))
-}
-
-func (lb *labeller) msgCoq(party int, m *shmsg.Message) (string, bool) {
-	rig := lb.lg.rig
-	plan := lb.lg.plan
-	switch {
-	case m.GetCheckIn() != nil:
-		return "MCheckIn", true
-	case m.GetPolyCommitment() != nil:
-		x := m.GetPolyCommitment()
-		g, ok := dkgrig.GammasOf(x)
-		if !ok {
-			return "", false
-		}
-		id, n := lb.commit(x.Eon, party, g)
-		return vh.CApp("MCommit", vh.CN(x.Eon), coqC(id, n)), true
-	case m.GetPolyEval() != nil:
-		x := m.GetPolyEval()
-		vals := []string{}
-		for k, r := range x.Receivers {
-			p := rig.IndexOf(common.BytesToAddress(r))
-			lab := vh.CApp("mkE", "false", "[]")
-			if p >= 0 && k < len(x.EncryptedEvals) {
-				if v, ok := rig.DecryptEval(p, x.EncryptedEvals[k]); ok {
-					lab = lb.eval(x.Eon, party, plan.memberIdx(p), v)
-				}
-			}
-			vals = append(vals, lab)
-		}
-		return vh.CApp("MEvals", vh.CN(x.Eon), vh.CBytesList(x.Receivers), vh.CList(vals)), true
-	case m.GetAccusation() != nil:
-		x := m.GetAccusation()
-		return vh.CApp("MAccusation", vh.CN(x.Eon), vh.CBytesList(x.Accused)), true
-	case m.GetApology() != nil:
-		x := m.GetApology()
-		vals := []string{}
-		for k, a := range x.Accusers {
-			idx := plan.memberIdx(rig.IndexOf(common.BytesToAddress(a)))
-			v := new(big.Int)
-			if k < len(x.PolyEvals) {
-				v.SetBytes(x.PolyEvals[k])
-			}
-			vals = append(vals, lb.eval(x.Eon, party, idx, v))
-		}
-		return vh.CApp("MApology", vh.CN(x.Eon), vh.CBytesList(x.Accusers), vh.CList(vals)), true
-	case m.GetDkgResult() != nil:
-		x := m.GetDkgResult()
-		return vh.CApp("MResult", vh.CN(x.Eon), vh.CBool(x.Success)), true
-	}
-	return "", false
-}
-
 func renderCase(id uint64, lg *runLog) string {
 	rig := lg.rig
 	plan := lg.plan
-	lb := &labeller{lg: lg, ids: map[string]uint64{}, byEon: map[uint64]map[int][]cm{}, verMemo: map[string]bool{}}
-	lb.collectCommits()
+	lb := dkgrig.NewLabeller(rig, plan.Members, plan.P.T)
+	lb.CollectCommits()
 	for _, l := range lg.snaps {
 		for _, s := range l {
 			for eon, p := range s.Pure {
 				for k, c := range p.Commitments {
 					if c != nil && k < len(plan.Members) {
-						lb.commit(eon, plan.Members[k], c)
+						lb.Commit(eon, plan.Members[k], c)
 					}
 				}
 			}
@@ -804,7 +579,7 @@ func renderCase(id uint64, lg *runLog) string {
 	for h := int64(1); h <= lg.endPos; h++ {
 		var evs []string
 		for _, ev := range dkgrig.EventsOf(rig.Chain.BlockAt(h)) {
-			if s, ok := lb.eventCoq(ev); ok {
+			if s, ok := lb.EventCoq(ev); ok {
 				evs = append(evs, s)
 			}
 		}
@@ -826,14 +601,14 @@ func renderCase(id uint64, lg *runLog) string {
 			if pc := s.Msg.GetPolyCommitment(); pc != nil && !seenPoly[pc.Eon] {
 				if g, ok := dkgrig.GammasOf(pc); ok {
 					seenPoly[pc.Eon] = true
-					pid, n := lb.commit(pc.Eon, i, g)
+					pid, n := lb.Commit(pc.Eon, i, g)
 					polys = append(polys, vh.CPair(vh.CN(pc.Eon), vh.CApp("mkP", vh.CN(pid), vh.CN(uint64(n)))))
 				}
 			}
 			if k := dkgrig.Kind(s.Msg); k == "batchconfig" || k == "blockseen" {
 				continue
 			}
-			if c, ok := lb.msgCoq(i, s.Msg); ok {
+			if c, ok := lb.MsgCoq(i, s.Msg); ok {
 				msgs = append(msgs, c)
 			}
 		}
@@ -848,7 +623,7 @@ func renderCase(id uint64, lg *runLog) string {
 			sort.Slice(eons, func(a, b int) bool { return eons[a] < eons[b] })
 			var rows []string
 			for _, e := range eons {
-				rows = append(rows, vh.CPair(vh.CN(e), lb.snapCoq(i, e, s.Pure[e])))
+				rows = append(rows, vh.CPair(vh.CN(e), lb.SnapCoq(i, e, s.Pure[e])))
 			}
 			snaps = append(snaps, vh.CPair(vh.CZ(s.Pos), vh.CList(rows)))
 		}
